@@ -7,6 +7,7 @@ CONSTANTS Weights = {}
  PayCfgs = {}
  PaySenders = {}
  PayFields = {}
+ GpFields = {}
  BoxCfgs = {}
  Kinds = {}
  ReconfCfgs = {}
